@@ -127,6 +127,7 @@ func (c14) Cases(tier string, seed uint64) []fw.Case {
 		CastMulti:   fw.KFOpen(KFCastOrder),
 		MultiSingl:  fw.KFOpen(KFInitOrder),
 		Mangle:      fw.KFOpen(KFMangleCollide),
+		Capture:     fw.KFOpen(KFCapture),
 	}
 	add := func(id string, kind string, b Built, pl Payload) {
 		pl.Fam, pl.Src, pl.Templ, pl.Reps, pl.Procs = b.Fam, b.Src, b.Templ, n, m
@@ -145,6 +146,7 @@ func (c14) Cases(tier string, seed uint64) []fw.Case {
 				CastMulti:   !open.CastMulti && fr.Chance(1, 3),
 				MultiSingl:  !open.MultiSingl && fr.Chance(1, 3),
 				Mangle:      !open.Mangle && fr.Chance(1, 3),
+				Capture:     !open.Capture && fr.Chance(1, 3),
 			}
 			b := Families[fam](fr, p)
 			add(fmt.Sprintf("c14-%s-%d", fam, i), "literal", b, Payload{InitOrder: !open.MultiSingl})
@@ -163,6 +165,7 @@ func (c14) Cases(tier string, seed uint64) []fw.Case {
 		{"castmulti", open.CastMulti, "objects", Poison{CastMulti: true}, false},
 		{"initorder", open.MultiSingl, "modules", Poison{MultiSingl: true}, true},
 		{"mangle", open.Mangle, "locals", Poison{Mangle: true}, false},
+		{"capture", open.Capture, "locals", Poison{Capture: true}, false},
 		{"mangle-modules", open.Mangle, "modules", Poison{Mangle: true}, false},
 	} {
 		if !ps.on {
